@@ -979,6 +979,141 @@ theorem genSem_targets_mem {h : Handler} {f : String} (hf : f ∈ (genSem h).tar
   simp only [genSem, List.mem_filter] at hf
   exact ⟨hf.1, by simpa using hf.2⟩
 
+
+/-! ### Light-node client records -/
+
+theorem lAnteOk_iff (m : LMsg) (g : Addr → Addr → Bool) :
+    lAnteOk m g = true ↔ SignedOrGranted g m.signers m.creator := by
+  simp [lAnteOk, SignedOrGranted, List.any_eq_true]
+
+theorem lLegacy_cases (F : Addr) (now : Nat) (s : LState) (x : Addr) :
+    lLegacy F now s x = s.client x
+    ∨ (s.grants F x = true ∧ s.client x = none ∧ s.licence x = false ∧ lLegacy F now s x = some ⟨now, now⟩) := by
+  unfold lLegacy
+  by_cases hg : s.grants F x = false
+  · simp [hg]
+  · by_cases hc : (s.client x).isSome = true
+    · simp [hc]
+    · by_cases hl : s.licence x = true
+      · simp [hl]
+      · right
+        have hg' : s.grants F x = true := by simpa using hg
+        have hc' : s.client x = none := by simpa using hc
+        have hl' : s.licence x = false := by simpa using hl
+        simp [hg', hc', hl']
+
+theorem lHandle_grants {F : Addr} {now : Nat} {s s' : LState} {m : LMsg} (h : lHandle F now s m = some s') :
+    s'.grants = s.grants := by
+  unfold lHandle at h
+  split at h
+  · split at h
+    · simp at h
+    · split at h
+      · simp at h
+      · simp at h; subst h; rfl
+  · split at h
+    · simp at h; subst h; rfl
+    · simp at h
+  · split at h
+    · simp at h
+    · simp at h; subst h; rfl
+  · simp at h; subst h; rfl
+
+/-- handler level: whose client record a handler may change, and how -/
+theorem lHandle_client_changed {F : Addr} {now : Nat} {s s' : LState} {m : LMsg} {B : Addr}
+    (h : lHandle F now s m = some s') (hne : s'.client B ≠ s.client B) :
+    (m.creator = B ∧ (m.act = .register ∨ m.act = .auth))
+    ∨ (m.act = .setLegacy ∧ s.grants F B = true ∧ s.client B = none ∧ s.licence B = false
+        ∧ s'.client B = some ⟨now, now⟩) := by
+  unfold lHandle at h
+  split at h
+  · split at h
+    · simp at h
+    · split at h
+      · simp at h
+      · simp at h; subst h; exact absurd rfl hne
+  · rename_i hact
+    split at h
+    · simp at h; subst h
+      left
+      refine ⟨?_, Or.inl hact⟩
+      apply Classical.byContradiction
+      intro hB
+      exact hne (setAt_other _ _ (fun e => hB e.symm))
+    · simp at h
+  · rename_i hact
+    split at h
+    · simp at h
+    · simp at h; subst h
+      left
+      refine ⟨?_, Or.inr hact⟩
+      apply Classical.byContradiction
+      intro hB
+      exact hne (setAt_other _ _ (fun e => hB e.symm))
+  · rename_i hact
+    simp at h; subst h
+    right
+    rcases lLegacy_cases F now s B with h0 | ⟨h1, h2, h3, h4⟩
+    · exact absurd h0 hne
+    · exact ⟨hact, h1, h2, h3, h4⟩
+
+/-- handler level: whose pending licence a handler may change -/
+theorem lHandle_licence_changed {F : Addr} {now : Nat} {s s' : LState} {m : LMsg} {B : Addr}
+    (h : lHandle F now s m = some s') (hne : s'.licence B ≠ s.licence B) :
+    (m.creator = B ∧ m.act = .register ∧ s.licence B = true)
+    ∨ (m.act = .addLicence B ∧ s.licence B = false ∧ s.account B = false) := by
+  unfold lHandle at h
+  split at h
+  · rename_i c hact
+    split at h
+    · simp at h
+    · rename_i hl
+      split at h
+      · simp at h
+      · rename_i ha
+        simp at h; subst h
+        right
+        have hB : B = c := by
+          apply Classical.byContradiction
+          intro hB
+          exact hne (setAt_other _ _ hB)
+        subst hB
+        exact ⟨hact, by simpa using hl, by simpa using ha⟩
+  · rename_i hact
+    split at h
+    · rename_i hl
+      simp at h; subst h
+      left
+      have hB : m.creator = B := by
+        apply Classical.byContradiction
+        intro hB
+        exact hne (setAt_other _ _ (fun e => hB e.symm))
+      exact ⟨hB, hact, hB ▸ hl⟩
+    · simp at h
+  · split at h
+    · simp at h
+    · simp at h; subst h; exact absurd rfl hne
+  · simp at h; subst h; exact absurd rfl hne
+
+theorem lDeliver_grants (F : Addr) (now : Nat) (s : LState) (m : LMsg) : (lDeliver F now s m).grants = s.grants := by
+  unfold lDeliver
+  split
+  · rfl
+  · split
+    · rfl
+    · rename_i s' h; exact lHandle_grants h
+
+theorem lDeliver_cases (F : Addr) (now : Nat) (s : LState) (m : LMsg) :
+    (lAccepted F now s m = false ∧ lDeliver F now s m = s)
+    ∨ (lAccepted F now s m = true ∧ lAnteOk m s.grants = true ∧ ∃ s', lHandle F now s m = some s' ∧ lDeliver F now s m = s') := by
+  unfold lDeliver lAccepted
+  by_cases hante : lAnteOk m s.grants = false
+  · left; simp [hante]
+  · have hante' : lAnteOk m s.grants = true := by simpa using hante
+    cases hh : lHandle F now s m with
+    | none => left; simp [hante']
+    | some s' => right; simp [hante']
+
 end Lemmas
 
 /- ## Property theorems -/
@@ -1722,6 +1857,192 @@ theorem confirms_always_backed (vals : List Addr) (ops : List COp) (hnoreg : ∀
     rw [hk] at this
     exact this
 
+/-! ### Declared signers and the transaction's signatures -/
+/-- Clause "changes only through a transaction SIGNED BY that principal or by an address holding a
+fee grant from it", at the level of the transaction's verified signatures (not of what a message
+says about its signers): every metadata-signed message of an accepted transaction has a creator
+that signed THE TRANSACTION, or that granted an allowance to an account that signed it.  (What the
+decorator reads — `metadata.signers` — is tied to the signatures by the SDK check `sigCheckTx`:
+the transaction is signed by exactly the accounts its messages declare.) -/
+theorem accepted_creator_signed_the_tx (env : Env) (s : State) (tx : Tx) (h : txAccepted env s tx = true) :
+    ∀ m ∈ tx.msgs, authoritySigned.contains m.typ = false → SignedOrGranted s.grants tx.signers m.creator := by
+  intro m hm hty
+  obtain ⟨h1, h2⟩ := multi_msg_each_checked env s tx h m hm
+  rw [declared_meta hty] at h2
+  exact SignedOrGranted.mono h2 h1
+
+/-- A message that declares NO signer (`metadata.signers` empty: the SDK then demands no signature
+for it) never passes the decorator — whatever creator it names, whatever grants exist. -/
+theorem no_declared_signer_no_pass (m : Msg) (g : Addr → Addr → Bool) (h : m.signers = []) : anteOk m g = false := by
+  simp [anteOk, h]
+
+/-- … so a transaction carrying such a message — next to any number of properly signed ones, which
+supply the transaction's signatures — is rejected as a whole and changes nothing (the four request
+types without a `ValidateBasic` reach the decorator in this shape). -/
+theorem undeclared_signer_tx_rejected (env : Env) (s : State) (tx : Tx) (m : Msg) (hm : m ∈ tx.msgs)
+    (h : m.signers = []) : txAccepted env s tx = false ∧ deliverTx env s tx = s := by
+  have hante : anteOkTx tx.msgs s.grants = false := by
+    cases hh : anteOkTx tx.msgs s.grants with
+    | false => rfl
+    | true =>
+      unfold anteOkTx at hh
+      have h1 := (List.all_eq_true.1 hh) m hm
+      rw [no_declared_signer_no_pass m _ h] at h1
+      cases h1
+  have hacc : txAccepted env s tx = false := by simp [txAccepted, hante]
+  exact ⟨hacc, rejected_tx_changes_nothing env s tx hacc⟩
+
+/-! ### Light-node licences and client records: the state-keyed migration -/
+
+/-- Clause "a user's … licences … change only through a transaction signed by that principal or by
+an address holding a fee grant from it", for the light-node CLIENT RECORD: if delivering `m` changes
+the record kept for `B`, then `m` was accepted and either `B` is its creator, signed / granted to a
+signer, and `m` registers or authenticates; or `m` is the migration, `B` is a grantee of the
+light-node feegranter that had NO record and no pending licence, and the record is the fresh one.
+The migration is never the reason an EXISTING record changes. -/
+theorem client_record_change_authorised (F : Addr) (now : Nat) (s : LState) (m : LMsg) (B : Addr)
+    (h : (lDeliver F now s m).client B ≠ s.client B) :
+    lAccepted F now s m = true ∧
+    ((m.creator = B ∧ SignedOrGranted s.grants m.signers B ∧ (m.act = .register ∨ m.act = .auth))
+     ∨ (m.act = .setLegacy ∧ s.grants F B = true ∧ s.client B = none ∧ s.licence B = false
+        ∧ (lDeliver F now s m).client B = some ⟨now, now⟩)) := by
+  rcases lDeliver_cases F now s m with ⟨_, h0⟩ | ⟨hacc, hante, s', hs', hd⟩
+  · rw [h0] at h; exact absurd rfl h
+  · rw [hd] at h ⊢
+    refine ⟨hacc, ?_⟩
+    rcases lHandle_client_changed hs' h with ⟨hc, ha⟩ | hleg
+    · left; exact ⟨hc, hc ▸ (lAnteOk_iff m s.grants).1 hante, ha⟩
+    · right; exact hleg
+
+/-- The same for the pending LICENCE: it disappears only when its holder registers it (creator `B`,
+signed / granted), and appears only for an address that has no licence and no account yet (bought
+FOR it: role `target` of `ClientAddress`). -/
+theorem licence_change_authorised (F : Addr) (now : Nat) (s : LState) (m : LMsg) (B : Addr)
+    (h : (lDeliver F now s m).licence B ≠ s.licence B) :
+    lAccepted F now s m = true ∧
+    ((m.creator = B ∧ SignedOrGranted s.grants m.signers B ∧ m.act = .register ∧ s.licence B = true)
+     ∨ (m.act = .addLicence B ∧ s.licence B = false ∧ s.account B = false)) := by
+  rcases lDeliver_cases F now s m with ⟨_, h0⟩ | ⟨hacc, hante, s', hs', hd⟩
+  · rw [h0] at h; exact absurd rfl h
+  · rw [hd] at h
+    refine ⟨hacc, ?_⟩
+    rcases lHandle_licence_changed hs' h with ⟨hc, ha, hl⟩ | hadd
+    · left; exact ⟨hc, hc ▸ (lAnteOk_iff m s.grants).1 hante, ha, hl⟩
+    · right; exact hadd
+
+/-- Clause "a transaction authorised by account A never … alters or removes anything attributed to
+a different principal B", for the handler that ignores its sender: `SetLegacyLightNodeClients` —
+sent by anybody, at any time, in any state of grants and licences — leaves every existing client
+record (and every licence) exactly as it is; also for clients that still hold the feegranter's
+allowance, as every client of the sale does. -/
+theorem migration_never_touches_a_record (F : Addr) (now : Nat) (s : LState) (m : LMsg) (B : Addr) (r : LRec)
+    (hact : m.act = .setLegacy) (hr : s.client B = some r) :
+    (lDeliver F now s m).client B = some r ∧ (lDeliver F now s m).licence B = s.licence B := by
+  constructor
+  · apply Classical.byContradiction
+    intro hne
+    have hne' : (lDeliver F now s m).client B ≠ s.client B := by rw [hr]; exact hne
+    rcases (client_record_change_authorised F now s m B hne').2 with ⟨_, _, h | h⟩ | ⟨_, _, hnone, _⟩
+    · rw [hact] at h; cases h
+    · rw [hact] at h; cases h
+    · rw [hr] at hnone; cases hnone
+  · apply Classical.byContradiction
+    intro hne
+    rcases (licence_change_authorised F now s m B hne).2 with ⟨_, _, h, _⟩ | ⟨h, _⟩
+    · rw [hact] at h; cases h
+    · rw [hact] at h; cases h
+
+/-- … and for every light-node message: a transaction that `B` did not sign and whose signers hold
+no allowance from `B` leaves `B`'s client record as it is — whatever creator it claims. -/
+theorem no_cross_principal_client_write (F : Addr) (now : Nat) (s : LState) (m : LMsg) (B : Addr) (r : LRec)
+    (hr : s.client B = some r) (hB : B ∉ m.signers) (hg : ∀ a ∈ m.signers, s.grants B a = false) :
+    (lDeliver F now s m).client B = some r := by
+  apply Classical.byContradiction
+  intro hne
+  have hne' : (lDeliver F now s m).client B ≠ s.client B := by rw [hr]; exact hne
+  rcases (client_record_change_authorised F now s m B hne').2 with ⟨_, hsg, _⟩ | ⟨_, _, hnone, _⟩
+  · rcases hsg with h | ⟨a, ha, hga⟩
+    · exact hB h
+    · rw [hg a ha] at hga; exact Bool.false_ne_true hga
+  · rw [hr] at hnone; cases hnone
+
+/-- … and leaves `B`'s pending licence in place. -/
+theorem no_cross_principal_licence_removal (F : Addr) (now : Nat) (s : LState) (m : LMsg) (B : Addr)
+    (hl : s.licence B = true) (hB : B ∉ m.signers) (hg : ∀ a ∈ m.signers, s.grants B a = false) :
+    (lDeliver F now s m).licence B = true := by
+  apply Classical.byContradiction
+  intro hne
+  have hne' : (lDeliver F now s m).licence B ≠ s.licence B := by rw [hl]; exact hne
+  rcases (licence_change_authorised F now s m B hne').2 with ⟨_, hsg, _⟩ | ⟨_, hfalse, _⟩
+  · rcases hsg with h | ⟨a, ha, hga⟩
+    · exact hB h
+    · rw [hg a ha] at hga; exact Bool.false_ne_true hga
+  · rw [hl] at hfalse; cases hfalse
+
+/-- is principal `P` involved in `op`?  (signs, or grants an allowance) -/
+def LInvolves (P : Addr) : LOp → Prop
+  | .grant g _ => g = P
+  | .revoke _ _ => False
+  | .sale _ => False
+  | .msg _ m => P ∈ m.signers
+
+/-- one step of a history in which `P` is not involved keeps `P`'s record, licence and "granted nothing" -/
+theorem lStep_keeps (F : Addr) (s : LState) (op : LOp) (P : Addr) (hF : P ≠ F)
+    (hg : ∀ e, s.grants P e = false) (hop : ¬ LInvolves P op) :
+    (∀ r, s.client P = some r → (lStep F s op).client P = some r)
+    ∧ (s.licence P = true → (lStep F s op).licence P = true)
+    ∧ ∀ e, (lStep F s op).grants P e = false := by
+  cases op with
+  | grant a b =>
+    refine ⟨fun r hr => hr, fun hl => hl, fun e => ?_⟩
+    simp only [LInvolves] at hop
+    simp only [lStep, setGrant]
+    split
+    · rename_i h; exact absurd h.1.symm hop
+    · exact hg e
+  | revoke a b =>
+    refine ⟨fun r hr => hr, fun hl => hl, fun e => ?_⟩
+    simp only [lStep, setGrant]
+    split
+    · rfl
+    · exact hg e
+  | sale c =>
+    simp only [lStep, lSale]
+    split
+    · exact ⟨fun r hr => hr, fun hl => hl, hg⟩
+    · split
+      · exact ⟨fun r hr => hr, fun hl => hl, hg⟩
+      · refine ⟨fun r hr => hr, fun hl => ?_, fun e => ?_⟩
+        · simp only [setAt]; split
+          · rfl
+          · exact hl
+        · simp only [setGrant]
+          split
+          · rename_i h; exact absurd h.1 hF
+          · exact hg e
+  | msg now m =>
+    simp only [LInvolves] at hop
+    refine ⟨fun r hr => ?_, fun hl => ?_, fun e => ?_⟩
+    · exact no_cross_principal_client_write F now s m P r hr hop (fun a _ => hg a)
+    · exact no_cross_principal_licence_removal F now s m P hl hop (fun a _ => hg a)
+    · simp only [lStep, lDeliver_grants]; exact hg e
+
+/-- Over ALL histories of grants, revocations, attested sales and light-node messages at arbitrary
+times: while `P` (not the feegranter itself) neither signs nor grants, its client record and its
+pending licence stay exactly as they are — however often anybody runs the migration. -/
+theorem light_node_history_owner_only (F : Addr) (P : Addr) (hF : P ≠ F) (ops : List LOp) :
+    ∀ s : LState, (∀ e, s.grants P e = false) → (∀ op ∈ ops, ¬ LInvolves P op) →
+      (∀ r, s.client P = some r → (lRun F s ops).client P = some r)
+      ∧ (s.licence P = true → (lRun F s ops).licence P = true) := by
+  induction ops with
+  | nil => intro s _ _; exact ⟨fun r hr => hr, fun hl => hl⟩
+  | cons op rest ih =>
+    intro s hg hops
+    obtain ⟨h1, h2, h3⟩ := lStep_keeps F s op P hF hg (hops op (by simp))
+    obtain ⟨i1, i2⟩ := ih (lStep F s op) h3 (fun o ho => hops o (by simp [ho]))
+    simp only [lRun, List.foldl_cons] at i1 i2 ⊢
+    exact ⟨fun r hr => i1 r (h1 r hr), fun hl => i2 (h2 hl)⟩
+
 /-! ### The tables against the source (`Gen/Auth.lean`) -/
 
 open Paloma.Gen.Auth in
@@ -2027,6 +2348,21 @@ example : (cRun [20, 21] cInit [.register ⟨[20], 20, 80⟩, .register ⟨[21],
     already confirmed with it -/
 example : (cRun [20, 21] cInit [.register ⟨[20], 20, 80⟩, exAtt 20 20 20 20 1, .register ⟨[20], 20, 88⟩,
     .register ⟨[21], 21, 80⟩, exAtt 21 21 20 20 1]).confirms = [⟨1, 20, 20, 20, 1⟩] := by decide
+
+/-! light-node histories: feegranter 13; 31 and 33 bought in the sale (licence + allowance), 31
+registered at time 1 and authenticated at time 2, 32 is a legacy grantee; at time 3 account 10 runs
+the migration: 32 gets a record, 31 keeps its own although it still holds the allowance, 33 (licence
+pending) gets none.  10 cannot authenticate for 31 without a grant, can with one; a licence cannot
+be bought for an address that already has an account. -/
+def exL : List LOp := [.sale 31, .msg 1 ⟨[31], 31, .register⟩, .msg 2 ⟨[31], 31, .auth⟩, .grant 13 32,
+  .sale 33, .msg 3 ⟨[10], 10, .setLegacy⟩]
+example : (lRun 13 (lInit [10, 13]) exL).client 31 = some ⟨1, 2⟩ := by decide
+example : (lRun 13 (lInit [10, 13]) exL).grants 13 31 = true := by decide
+example : (lRun 13 (lInit [10, 13]) exL).client 32 = some ⟨3, 3⟩ := by decide
+example : (lRun 13 (lInit [10, 13]) exL).client 33 = none ∧ (lRun 13 (lInit [10, 13]) exL).licence 33 = true := by decide
+example : (lRun 13 (lInit [10, 13]) (exL ++ [.msg 4 ⟨[10], 31, .auth⟩])).client 31 = some ⟨1, 2⟩ := by decide
+example : (lRun 13 (lInit [10, 13]) (exL ++ [.grant 31 10, .msg 4 ⟨[10], 31, .auth⟩])).client 31 = some ⟨1, 4⟩ := by decide
+example : (lRun 13 (lInit [10, 13]) (exL ++ [.msg 4 ⟨[10], 10, .addLicence 32⟩])).licence 32 = false := by decide
 
 end Examples
 
